@@ -60,13 +60,17 @@ def verify_contract(name, timeout_ms=20000, repo_root=None, want_model=True, var
                 order.append(ob.name)
             grouped[ob.name].append(ob)
         c0 = sym.counter_value()
+        # every obligation is elaborated with the same fresh-name sequence whatever happened to the obligations
+        # before it (solver heuristics are sensitive to names); obligations are proved in forked children, several at a time
+        sym.set_counter(c0 + 1)
+        flat = [(nm, ob) for nm in order for ob in grouped[nm]]
+        results = _prove_parallel([ob for _, ob in flat], timeout_ms, ax, want_model, int(os.environ.get('SEDVC_OB_JOBS', '4')))
+        by_name = {}
+        for (nm, ob), r in zip(flat, results):
+            by_name.setdefault(nm, []).append((ob, r))
         for nm in order:
             worst, secs, detail, model, nsub, kind = 'proved', 0.0, None, None, 0, None
-            for ob in grouped[nm]:
-                # every obligation is elaborated with the same fresh-name sequence whatever happened to the
-                # obligations before it (solver heuristics are sensitive to names)
-                sym.set_counter(c0 + 1)
-                r = _prove_isolated(ob, timeout_ms, ax, want_model)
+            for ob, r in by_name[nm]:
                 secs += r.seconds
                 nsub += max(1, r.nsub)
                 kind = r.kind
@@ -88,6 +92,56 @@ def verify_contract(name, timeout_ms=20000, repo_root=None, want_model=True, var
         out['error'] = ''.join(traceback.format_exception(type(e), e, e.__traceback__))[-3000:]
     out['seconds'] = round(time.time() - t0, 3)
     return out
+
+
+def _prove_parallel(obs, timeout_ms, ax, want_model, jobs):
+    """Prove each obligation in its own forked child (see _prove_isolated), up to `jobs` children at a time.
+    Children hand their result back through a scratch file (results can be larger than a pipe buffer)."""
+    import pickle
+    import tempfile
+    if jobs <= 1 or len(obs) <= 1:
+        return [_prove_isolated(ob, timeout_ms, ax, want_model) for ob in obs]
+    root = os.environ.get('VERIF_TMP') or os.environ.get('TMPDIR') or '/var/tmp'
+    os.makedirs(root, exist_ok=True)
+    tmpdir = tempfile.mkdtemp(prefix='sedvc_ob_', dir=root)
+    results = [None] * len(obs)
+    running = {}
+    nxt = 0
+
+    def unknown(ob, why):
+        return dict(name=ob.name, status='unknown', seconds=0.0, detail=why, model=None, kind=ob.kind, subqueries=1, backend='z3')
+    try:
+        while nxt < len(obs) or running:
+            while nxt < len(obs) and len(running) < jobs:
+                i, ob = nxt, obs[nxt]
+                nxt += 1
+                path = os.path.join(tmpdir, '%d.pkl' % i)
+                pid = os.fork()
+                if pid == 0:
+                    try:
+                        try:
+                            payload = solver.prove(ob, timeout_ms=timeout_ms, global_axioms=ax, want_model=want_model).to_dict()
+                        except Exception as e:       # includes Unsupported raised while elaborating
+                            payload = unknown(ob, 'elaboration failed: %s: %s' % (type(e).__name__, e))
+                        with open(path, 'wb') as f:
+                            pickle.dump(payload, f)
+                    finally:
+                        os._exit(0)
+                running[pid] = (i, path)
+            pid, _ = os.waitpid(-1, 0)
+            if pid not in running:
+                continue
+            i, path = running.pop(pid)
+            try:
+                with open(path, 'rb') as f:
+                    d = pickle.load(f)
+            except Exception:
+                d = unknown(obs[i], 'prover process died')
+            results[i] = solver.Result(d['name'], d['status'], d['seconds'], d['detail'], d['model'], d['kind'], d['subqueries'], d['backend'])
+    finally:
+        import shutil
+        shutil.rmtree(tmpdir, ignore_errors=True)
+    return results
 
 
 def _prove_isolated(ob, timeout_ms, ax, want_model):
@@ -133,7 +187,10 @@ def verify_many(names, timeout_ms=20000, repo_root=None, procs=None):
         for v in reg[n].variants:
             tasks.append((n, v, timeout_ms, repo_root))
     procs = procs or min(len(tasks), os.cpu_count() or 4)
+    ncpu = os.cpu_count() or 4
+    os.environ['SEDVC_OB_JOBS'] = str(max(4, min(8, ncpu // max(1, min(len(tasks), ncpu)))))
     if procs <= 1 or len(tasks) == 1:
+        os.environ['SEDVC_OB_JOBS'] = str(min(12, ncpu))
         return [_worker(t) for t in tasks]
     ctx = multiprocessing.get_context('fork')
     # one fresh process per task: a verification never depends on what its worker did before
